@@ -1,6 +1,6 @@
 (** * C03 — mutable access only for a sole owner, ordered after all former sharers.  Property theorems only. *)
 From Coq Require Import NArith List Bool Arith.
-From TV Require Import Layout SrcFacts Conc ConcProofs Mech MechProofs MechLog MechProps Extracted.
+From TV Require Import Layout SrcFacts Conc ConcProofs ConcX Mech MechProofs MechLog MechProps Extracted.
 Import ListNotations.
 Open Scope N_scope.
 
@@ -79,6 +79,21 @@ Theorem C03_acquire_on_the_test_is_necessary :
   raced_after (mkCfg true true false) [LClone 0; LClone 0; LDrop 0; LSend 0 1; LRead 0; LDrop 0; LUniq 1 4; LWrite 1] = true.
 Proof. exact uniq_relaxed_refuted. Qed.
 
+(** the uniqueness test and the release path as they are written in the source (translated to programs over the counter
+    on every run) are the ones the machine models: one Acquire load compared with 1; a Release decrement electing the
+    destroyer by its own result *)
+Theorem C03_protocol_as_written :
+  p_uniq Extracted.count_progs = p_uniq good_progs /\ p_drop Extracted.count_progs = p_drop good_progs.
+Proof. split; reflexivity. Qed.
+
+
+
+(** the uniqueness tests, copy-on-write and unwrapping functions (make_mut, make_unique, get_mut, try_unique, try_unwrap,
+    unwrap_or_clone, into_inner, from_arc, OffsetArc::make_mut, drop, clone ... 21 functions) still have the bodies the
+    machine's library functions were transcribed from *)
+Theorem C03_functions_are_the_modelled_ones : Extracted.cow_forms_ok = true.
+Proof. reflexivity. Qed.
+
 Check C03_grant_is_ordered_after_all_sharers.
 Print Assumptions C03_is_unique_iff_sole_owner.
 Print Assumptions C03_try_unique_iff_sole_owner.
@@ -89,3 +104,5 @@ Print Assumptions C03_unique_handles_are_sole_owners.
 Print Assumptions C03_grant_is_ordered_after_all_sharers.
 Print Assumptions C03_no_race_with_the_writer.
 Print Assumptions C03_acquire_on_the_test_is_necessary.
+Print Assumptions C03_protocol_as_written.
+Print Assumptions C03_functions_are_the_modelled_ones.
